@@ -20,7 +20,9 @@ THEOREMS = [P + t for t in (
     "table_total", "ids_injective", "pdp_total", "pdp_request_wellformed", "pdp_no_extra",
     "collected_keys", "collected_in_resource_category",
     "log_counts", "log_perm_invariant", "inferSite_idem", "asm_eq_topo", "asm_inference_matters",
-    "legacy_mirror_counterexample")]
+    "legacy_mirror_counterexample",
+    "value_objects_private", "live_slice_is_stored", "unwritten_element_keeps_its_value", "collect_unchanged_by_reads_and_pokes",
+    "read_modify_write", "memo_reads_counterexample")]
 TRUSTED_BASE = [
     "gen/authz.py: behavioural probes of ResourceAuthZAttributes on stand-in containers of real slivers (one node of every "
     "NodeType, one service of every ServiceType with / without site / with its mirrored port in the slice, 100 "
@@ -48,6 +50,12 @@ TRUSTED_BASE = [
     "(get_sliver() of a node whose components changed, the lookup views) is the slice as it is now - nothing kept from an earlier "
     "collection - is H_present over time: checked by the edit histories (collect, edit, collect again on the same object, each "
     "stage against the harness's own description of the edited slice and against the model serialised from it), not proved",
+    "value objects (Model/Authz.lean `VObj`): an element stores a value, a read hands out an object of its own, a write stores the "
+    "object's value at that moment; `readsFresh` is a behavioural probe on a real two-node topology (gen/authz.py), the step "
+    "function is checked differentially on real topologies (`vobj` requests: reads through the attribute / get_property / "
+    "get_sliver, writes through the attribute / set_property / set_properties, node capacities only); bandwidths and labels are "
+    "covered by the edit histories (read - change in place - write back routes, objects changed and not written back), not by "
+    "the differential stream; all-zero capacities are stored as no capacities and are outside the stream",
 ]
 ASSUMPTIONS = [
     "a topology *object* handed to the collectors has been validated (Topology.validate() records the site of single-site "
@@ -71,7 +79,11 @@ RULE = ("slices of 0..7 nodes/services/facilities with several PortMirror/FABNet
         "and removed, node renamed / resized / moved, service bandwidth and service-port label changed; 2 deterministic histories "
         "+ random ones of 5..8 edits): after the build and after EVERY edit validate() and a collection through every path "
         "(topology object, Node / service / component handles, model serialised before and after validate()), each judged "
-        "against the description of the slice as it is at that stage and run through the Lean model; "
+        "against the description of the slice as it is at that stage and run through the Lean model; sizes / bandwidths / labels are "
+        "edited with a new object or by read - change in place - write back (attribute, get_sliver; all fields or one), often to "
+        "the text ANOTHER element carries, and objects read from or handed to the slice are changed without being written back; "
+        "value-object histories on slices of 1..4 mostly equally sized VMs (3 deterministic + 150 / 1500 random of 3..11 "
+        "operations: read x3 routes, new, change in place, write x3 routes, unset) against a reference semantics and the Lean model; "
         "non-trivial = >= 2 services needing a site attribute; distinct by (canonical slice in stored order, entry point)")
 
 RESOURCE_CATEGORY = "urn:oasis:names:tc:xacml:3.0:attribute-category:resource"
@@ -643,7 +655,7 @@ def _build_into(t, ts, node_order, svc_order, validate=True):
         n = ts["nodes"][i]
         kw = {}
         if n["caps"] is not None:
-            kw["capacities"] = Capacities(core=n["caps"][0], ram=n["caps"][1], disk=n["caps"][2])
+            kw["capacities"] = _passed(Capacities(core=n["caps"][0], ram=n["caps"][1], disk=n["caps"][2]))
         if n.get("hints") is not None:
             from fim.slivers.capacities_labels import CapacityHints
             kw["capacity_hints"] = CapacityHints(instance_type=n["hints"])
@@ -1162,8 +1174,32 @@ def edit_spec(ts, e):
         ts["switch"] = {"name": e["name"], "site": e["site"]}
     elif op == "rm_switch":
         ts["switch"] = None
+    elif op == "scribble":
+        pass        # the caller changed an object the library handed out / was handed; nothing was written to the slice
     else:
         raise ValueError(op)
+
+
+# value objects the harness handed to the library (add_node / set_property arguments) during the current history: the caller
+# still holds them and may change them afterwards (`scribble` target "passed")
+_PASSED = []
+
+
+def _passed(obj):
+    _PASSED.append(obj)
+    del _PASSED[:-8]
+    return obj
+
+
+def _scribble_caps(c, k):
+    """change every field of a Capacities object the caller holds, in place"""
+    if c is None:
+        return
+    for f, v in (("core", 61 + k), ("ram", 251 + k), ("disk", 9001 + k), ("bw", 77 + k)):
+        try:
+            setattr(c, f, v)
+        except Exception:
+            pass
 
 
 def edit_topo(t, ts, e):
@@ -1195,15 +1231,43 @@ def edit_topo(t, ts, e):
     elif op == "site":
         node(e["node"]).site = e["site"]
     elif op == "caps":
-        node(e["node"]).set_property("capacities", Capacities(core=e["caps"][0], ram=e["caps"][1], disk=e["caps"][2]))
+        # routes: a new object through set_property (default) / through the attribute; read - change in place - write back
+        # (all fields, or the core count only: the other fields are the ones that were READ), via the attribute or the sliver
+        route, nd, cur = e.get("route", "set"), node(e["node"]), None
+        if route in ("rmw", "rmw1"):
+            cur = nd.capacities
+        elif route == "rmw_sliver":
+            cur = nd.get_sliver().capacities
+        if cur is not None:
+            cur.core = e["caps"][0]
+            if route != "rmw1":
+                cur.ram, cur.disk = e["caps"][1], e["caps"][2]
+        else:
+            cur = _passed(Capacities(core=e["caps"][0], ram=e["caps"][1], disk=e["caps"][2]))
+        if route in ("set", "rmw_sliver"):
+            nd.set_property("capacities", cur)
+        else:
+            nd.capacities = cur
         if ts["nodes"][e["node"]].get("hints") is not None:
             node(e["node"]).unset_property("capacity_hints")
     elif op == "rename":
         node(e["node"]).rename(e["name"])
     elif op == "bw":
-        t.network_services[ts["svcs"][e["svc"]]["name"]].set_property("capacities", Capacities(bw=e["bw"]))
+        ns = t.network_services[ts["svcs"][e["svc"]]["name"]]
+        cur = ns.capacities if e.get("route") == "rmw" else None
+        if cur is not None:
+            cur.bw = e["bw"]
+            ns.capacities = cur
+        else:
+            ns.set_property("capacities", _passed(Capacities(bw=e["bw"])))
     elif op == "label":
-        t.network_services[ts["svcs"][e["svc"]]["name"]].interface_list[0].set_property("labels", Labels(local_name=e["label"]))
+        port = t.network_services[ts["svcs"][e["svc"]]["name"]].interface_list[0]
+        cur = port.labels if e.get("route") == "rmw" else None
+        if cur is not None:
+            cur.local_name = e["label"]
+            port.labels = cur
+        else:
+            port.set_property("labels", Labels(local_name=e["label"]))
     elif op == "add_fac":
         t.add_facility(name=e["name"], site=e["site"], capacities=Capacities(bw=10))
     elif op == "rm_fac":
@@ -1212,6 +1276,31 @@ def edit_topo(t, ts, e):
         t.add_switch(name=e["name"], site=e["site"])
     elif op == "rm_switch":
         t.remove_switch(name=ts["switch"]["name"])
+    elif op == "scribble":
+        # the caller changes, IN PLACE, an object it read from the slice or handed to it earlier - and writes nothing back
+        what, k = e["what"], e.get("k", 0)
+        if what == "node_caps":
+            _scribble_caps(node(e["node"]).capacities, k)
+        elif what == "node_sliver":
+            sl = node(e["node"]).get_sliver()
+            _scribble_caps(sl.capacities, k)
+            _scribble_caps(sl.capacity_allocations, k)
+            sl.site = "ZZ%d" % k
+        elif what == "svc_caps":
+            _scribble_caps(t.network_services[ts["svcs"][e["svc"]]["name"]].capacities, k)
+        elif what == "svc_sliver":
+            sl = t.network_services[ts["svcs"][e["svc"]]["name"]].get_sliver()
+            _scribble_caps(sl.capacities, k)
+            sl.site = "ZZ%d" % k
+        elif what == "label":
+            lab = t.network_services[ts["svcs"][e["svc"]]["name"]].interface_list[0].labels
+            if lab is not None:
+                lab.local_name = "scribbled%d" % k
+        elif what == "passed":
+            for c in _PASSED:
+                _scribble_caps(c, k)
+        else:
+            raise ValueError(what)
     else:
         raise ValueError(op)
 
@@ -1237,7 +1326,8 @@ def gen_edits(ts, rng, n):
             if nd["comps"] and not any(tuple(r[:2]) == (i, len(nd["comps"]) - 1) for s in ts["svcs"] for r in s["ifs"]) \
                     and not any(tuple(r[:2]) == (i, len(nd["comps"]) - 1) for r in ts.get("burnt", [])):
                 cand += [("rm_comp", i)] * 2
-            cand.append(("caps", i))
+            cand += [("caps", i)] * 2
+            cand.append(("scribble", "node_caps" if step % 2 else "node_sliver", i))
             if _plain_node(nd) and i not in used_nodes:
                 cand.append(("site", i))
             cand.append(("rename", i))
@@ -1251,9 +1341,10 @@ def gen_edits(ts, rng, n):
             cand += [("add_svc",)] * 2
         user = [i for i, s in enumerate(ts["svcs"]) if s.get("fac") is None]
         if user:
-            cand += [("rm_svc",), ("bw",)]
+            cand += [("rm_svc",), ("bw",), ("bw",), ("scribble", "svc_caps" if step % 2 else "svc_sliver")]
             if any(ts["svcs"][i]["ifs"] and not ts["svcs"][i].get("sub") and ts["svcs"][i]["t"] != "PortMirror" for i in user):
-                cand.append(("label",))
+                cand += [("label",), ("scribble", "label")]
+        cand.append(("scribble", "passed"))
         cand.append(("add_fac",) if len(ts["facs"]) < 3 else ("caps", 0))
         if ts["facs"] and not any(s.get("fac") == len(ts["facs"]) - 1 for s in ts["svcs"]):
             cand.append(("rm_fac",))
@@ -1266,14 +1357,33 @@ def gen_edits(ts, rng, n):
         elif op == "rm_comp":
             e = {"op": op, "node": c[1]}
         elif op == "caps":
-            e = {"op": op, "node": c[1], "caps": [rng.choice([1, 2, 4, 8]), rng.choice([8, 16, 32]), rng.choice([10, 100, 500])]}
+            # often the size ANOTHER node has (or this one had): textually identical property values on several elements
+            others = [nd["caps"] for j, nd in enumerate(ts["nodes"]) if nd["caps"] is not None and j != c[1]]
+            caps = list(rng.choice(others)) if others and rng.random() < 0.4 else \
+                [rng.choice([1, 2, 4, 8]), rng.choice([8, 16, 32]), rng.choice([10, 100, 500])]
+            route = rng.choice(["set", "set_attr", "rmw", "rmw", "rmw1", "rmw_sliver"])
+            old = ts["nodes"][c[1]]["caps"]
+            if route == "rmw1" and old is not None:
+                caps = [caps[0], old[1], old[2]]
+            e = {"op": op, "node": c[1], "caps": caps, "route": route}
+        elif op == "scribble":
+            e = {"op": op, "what": c[1], "k": step}
+            if c[1] in ("node_caps", "node_sliver"):
+                e["node"] = c[2]
+            elif c[1] == "label":
+                e["svc"] = rng.choice([i for i in user if ts["svcs"][i]["ifs"] and not ts["svcs"][i].get("sub")
+                                       and ts["svcs"][i]["t"] != "PortMirror"])
+            elif c[1] != "passed":
+                e["svc"] = rng.choice(user)
         elif op == "site":
             e = {"op": op, "node": c[1], "site": rng.choice(sites)}
         elif op == "rename":
             e = {"op": op, "node": c[1], "name": free_names[0]}
         elif op == "add_node":
+            others = [nd["caps"] for nd in ts["nodes"] if nd["caps"] is not None]
             e = {"op": op, "name": free_names[0], "site": rng.choice(sites),
-                 "caps": None if rng.random() < 0.2 else [rng.choice([1, 2, 4]), rng.choice([8, 16]), rng.choice([10, 100])]}
+                 "caps": None if rng.random() < 0.2 else list(rng.choice(others)) if others and rng.random() < 0.5 else
+                 [rng.choice([1, 2, 4]), rng.choice([8, 16]), rng.choice([10, 100])]}
         elif op == "add_svc":
             ded = [x for x in free if not ts["nodes"][x[0]]["comps"][x[1]]["model"].startswith("SharedNIC")]
             q = rng.random()
@@ -1292,10 +1402,10 @@ def gen_edits(ts, rng, n):
         elif op == "rm_svc":
             e = {"op": op, "svc": rng.choice(user)}
         elif op == "bw":
-            e = {"op": op, "svc": rng.choice(user), "bw": rng.choice([1, 3, 25, 100])}
+            e = {"op": op, "svc": rng.choice(user), "bw": rng.choice([1, 3, 25, 100]), "route": rng.choice(["set", "rmw", "rmw"])}
         elif op == "label":
             ok = [i for i in user if ts["svcs"][i]["ifs"] and not ts["svcs"][i].get("sub") and ts["svcs"][i]["t"] != "PortMirror"]
-            e = {"op": op, "svc": rng.choice(ok), "label": rng.choice(T_PORT_FAM)}
+            e = {"op": op, "svc": rng.choice(ok), "label": rng.choice(T_PORT_FAM), "route": rng.choice(["set", "rmw"])}
         elif op == "add_fac":
             nm = [x for x in ["F1", "F10", "FF", "hf%d" % step] if x not in {f["name"] for f in ts["facs"]}][0]
             e = {"op": op, "name": nm, "site": rng.choice(sites + ["D"])}
@@ -1339,6 +1449,7 @@ def run_history(ts0, edits, with_asm=True):
     import copy
     ts = _norm_ts(ts0)
     stages = []
+    del _PASSED[:]
     no, so = list(range(len(ts["nodes"]))), list(range(len(ts["svcs"])))
 
     def case(i):
@@ -1380,6 +1491,26 @@ def run_history(ts0, edits, with_asm=True):
     return stages
 
 
+def _twin(ts, rng):
+    """several elements with textually identical property values: every sized node gets the first one's size (a second node
+    is added when there is one only), every service with a bandwidth the first one's"""
+    sized = [n for n in ts["nodes"] if n["caps"] is not None]
+    if not sized:
+        ts["nodes"][0]["caps"], ts["nodes"][0]["hints"] = [2, 8, 10], None
+        sized = [ts["nodes"][0]]
+    for n in sized[1:]:
+        n["caps"] = list(sized[0]["caps"])
+    if len(sized) == 1:
+        nm = [x for x in T_NODE_FAM + ["tw"] if x not in {n["name"] for n in ts["nodes"]}][0]
+        ts["nodes"].append({"name": nm, "site": rng.choice([n["site"] for n in ts["nodes"]]), "caps": list(sized[0]["caps"]),
+                            "hints": None, "comps": []})
+    bws = [s for s in ts["svcs"] if s["bw"] is not None]
+    for s in ts["svcs"]:
+        if s.get("fac") is None and s["t"] != "PortMirror":
+            s["bw"] = bws[0]["bw"] if bws else 10
+    return ts
+
+
 def history_runs(ctx, n=None, steps=None):
     """the edit histories of this check run, shared by correspondence and oracle -> [(description, [run])] like topo_runs"""
     key = ("hist", n, steps)
@@ -1389,6 +1520,8 @@ def history_runs(ctx, n=None, steps=None):
         hs = [(c["tspec"], c["edits"]) for _, c in load_corpus() if "edits" in c] + corner_histories()
         for i in range(n if n is not None else ctx.scale(4, 30)):
             ts = gen_tspec(rng, 1 + i % 2)
+            if i % 2:
+                _twin(ts, rng)
             hs.append((ts, gen_edits(ts, rng, steps or ctx.scale(5, 8))))
         out = []
         for ts0, edits in hs:
@@ -1406,7 +1539,12 @@ def judge_tspec(ts, runs, res, with_asm=True):
         if case["kind"] == "history":
             res.count("history:stage" if "out" in run else "history:stopped:" + run.get("build_error", "collect"))
             if case["edits"]:
-                res.count("history:edit:" + case["edits"][-1]["op"])
+                last = case["edits"][-1]
+                res.count("history:edit:" + last["op"] + (":" + last["what"] if "what" in last else "")
+                          + (":" + last["route"] if "route" in last else ""))
+                sizes = [canon(n["caps"]) for n in ts["nodes"] if n["caps"] is not None]
+                if len(sizes) != len(set(sizes)):
+                    res.count("history:stage:nodes-with-identical-capacities")
         if "build_error" in run:
             res.count("topo-build-failed:" + run["build_error"])
             continue
@@ -1484,6 +1622,166 @@ def topo_runs(ctx, n=None, k=None):
         # (every lookup of the topology API scans the whole store: the cost of one run grows with the square of the slice)
         cache[key] = [(ts, run_tspec(ts, trng, k or (ctx.scale(3, 4) if weight(ts) <= 8 else ctx.scale(2, 3)))) for ts in tcases]
     return cache[key]
+
+
+# --------------------------------------------------------------------------
+# value objects: a caller's history over the objects a slice of VMs hands out (Model/Authz.lean `VObj`)
+
+VOBJ_SIZES = [[32, 128, 500], [32, 128, 500], [2, 8, 10], [1, 2, 10], [0, 8, 0], None]      # (all-zero capacities are stored as no capacities at all)
+VOBJ_READS = ["attr", "get_property", "sliver"]
+VOBJ_WRITES = ["attr", "set_property", "set_properties"]
+
+
+def gen_vobj(rng, k, n):
+    """k VMs (mostly equally sized), n operations: read an element's capacities (three routes), build an object, change a held
+    object in place, write a held object to an element (three routes), unset. Handles count the objects in the order the caller
+    obtained them (a read of an unset element hands out nothing)."""
+    stored = [rng.choice(VOBJ_SIZES[:4] if rng.random() < 0.85 else VOBJ_SIZES) for _ in range(k)]
+    cur, handles, ops, routes = list(stored), 0, [], []
+    for _ in range(n):
+        r = rng.random()
+        if r < 0.35 or handles == 0:
+            i = rng.randrange(k)
+            ops.append(["read", i]); routes.append(rng.choice(VOBJ_READS))
+            handles += cur[i] is not None
+        elif r < 0.45:
+            ops.append(["new", rng.choice(VOBJ_SIZES[:5])]); routes.append(None)
+            handles += 1
+        elif r < 0.75:
+            ops.append(["poke", rng.randrange(handles + (rng.random() < 0.05)), [rng.choice([1, 3, 32, 64]), rng.choice([2, 128]), rng.choice([10, 500])]])
+            routes.append(None)
+        elif r < 0.95:
+            i = rng.randrange(k)
+            ops.append(["write", i, rng.randrange(handles + (rng.random() < 0.05))]); routes.append(rng.choice(VOBJ_WRITES))
+            cur[i] = True if ops[-1][2] < handles else cur[i]
+        else:
+            i = rng.randrange(k)
+            if cur[i] is None:
+                continue        # (unsetting a property that is not set is refused by the graph layer)
+            ops.append(["unset", i]); routes.append(None)
+            cur[i] = None
+    return {"stored": stored, "ops": ops, "routes": routes}
+
+
+def corner_vobj():
+    big = [32, 128, 500]
+    return [
+        # (seeded C11-r6-1 / corpus 11) two equal VMs, one shrunk by read - change - write back
+        {"stored": [big, big], "ops": [["read", 1], ["poke", 0, [1, 2, 10]], ["write", 1, 0]], "routes": ["attr", None, "attr"]},
+        # an object read and changed, never written back
+        {"stored": [big], "ops": [["read", 0], ["poke", 0, [1, 2, 10]]], "routes": ["sliver", None]},
+        # an object handed to the slice and changed afterwards; the same object written to two elements, changed between
+        {"stored": [big, None, big], "ops": [["new", [2, 8, 10]], ["write", 0, 0], ["poke", 0, [64, 128, 500]], ["write", 1, 0],
+                                             ["poke", 0, [3, 2, 10]], ["read", 2], ["write", 2, 1], ["unset", 0], ["read", 0]],
+         "routes": [None, "set_property", None, "set_properties", None, "get_property", "attr", None, "attr"]},
+    ]
+
+
+def vobj_expect(case):
+    """reference semantics, straight from the wording: an element stores a value; a read hands out a NEW object holding it; a
+    write stores the value the object holds at that moment"""
+    stored, heap = [None if c is None else list(c) for c in case["stored"]], []
+    for op in case["ops"]:
+        if op[0] == "read":
+            if stored[op[1]] is not None:
+                heap.append(list(stored[op[1]]))
+        elif op[0] == "new":
+            heap.append(list(op[1]))
+        elif op[0] == "poke":
+            if op[1] < len(heap):
+                heap[op[1]] = list(op[2])
+        elif op[0] == "write":
+            if op[2] < len(heap):
+                stored[op[1]] = list(heap[op[2]])
+        elif op[0] == "unset":
+            stored[op[1]] = None
+    sized = [c for c in stored if c is not None]
+    return {"presented": stored, "handles": len(heap), "cpu": [c[0] for c in sized], "ram": [c[1] for c in sized],
+            "disk": [c[2] for c in sized], "cores": sum(c[0] for c in sized)}
+
+
+def impl_vobj(case):
+    from fim.user.topology import ExperimentTopology
+    from fim.slivers.capacities_labels import Capacities
+    from fim.authz.attribute_collector import ResourceAuthZAttributes as AZ
+    from fim.logging.log_collector import LogCollector
+    t = ExperimentTopology()
+    try:
+        nodes = [t.add_node(name="v%d" % i, site="S", **({"capacities": Capacities(core=c[0], ram=c[1], disk=c[2])} if c is not None else {}))
+                 for i, c in enumerate(case["stored"])]
+        heap = []
+        for op, route in zip(case["ops"], case.get("routes") or [None] * len(case["ops"])):
+            if op[0] == "read":
+                n = nodes[op[1]]
+                c = n.get_property("capacities") if route == "get_property" else n.get_sliver().capacities if route == "sliver" \
+                    else n.capacities
+                if c is not None:
+                    heap.append(c)
+            elif op[0] == "new":
+                heap.append(Capacities(core=op[1][0], ram=op[1][1], disk=op[1][2]))
+            elif op[0] == "poke":
+                if op[1] < len(heap):
+                    heap[op[1]].core, heap[op[1]].ram, heap[op[1]].disk = op[2]
+            elif op[0] == "write":
+                if op[2] < len(heap):
+                    if route == "set_property":
+                        nodes[op[1]].set_property("capacities", heap[op[2]])
+                    elif route == "set_properties":
+                        nodes[op[1]].set_properties(capacities=heap[op[2]])
+                    else:
+                        nodes[op[1]].capacities = heap[op[2]]
+            elif op[0] == "unset":
+                nodes[op[1]].unset_property("capacities")
+        t.validate()
+        presented = []
+        for n in t.nodes.values():
+            c = n.get_sliver().capacities
+            presented.append(None if c is None else [c.core, c.ram, c.disk])
+        az = AZ()
+        az.collect_resource_attributes(source=t)
+        lc = LogCollector()
+        lc.collect_resource_attributes(source=t)
+        return ["ok", {"presented": presented, "handles": len(heap), "cpu": list(az.attributes.get(AZ.RESOURCE_CPU, [])),
+                       "ram": list(az.attributes.get(AZ.RESOURCE_RAM, [])), "disk": list(az.attributes.get(AZ.RESOURCE_DISK, [])),
+                       "cores": lc.attributes["core_count"]}]
+    except Exception as e:
+        return ["err", err_kind(e)]
+    finally:
+        dispose(t)
+
+
+def vobj_cases(ctx, n=None):
+    key = ("vobj", n)
+    cache = ctx.__dict__.setdefault("_c11_topo", {})
+    if key not in cache:
+        rng = ctx.sub_rng("vobj")
+        cases = corner_vobj() + [gen_vobj(rng, 1 + i % 4, 3 + i % 9) for i in range(n if n is not None else ctx.scale(150, 1500))]
+        cache[key] = [(c, impl_vobj(c)) for c in cases]
+    return cache[key]
+
+
+def eval_vobj(case, got, res):
+    exp = vobj_expect(case)
+    c = {"entry": "value-objects", "vobj": case}
+    res.evaluations += 1
+    sizes = [canon(x) for x in case["stored"] if x is not None]
+    if len(sizes) != len(set(sizes)):
+        res.count("value-objects:elements-with-identical-text")
+    for op, route in zip(case["ops"], case.get("routes") or []):
+        res.count("value-objects:%s%s" % (op[0], ":" + route if route else ""))
+    if got[0] != "ok":
+        res.violation("C11:raises:" + got[1], "collecting from a slice of VMs after a history over its value objects raised", c)
+        return
+    for k, what in (("cpu", "resource-cpu"), ("ram", "resource-ram"), ("disk", "resource-disk")):
+        if sorted(got[1][k]) != sorted(exp[k]):
+            res.violation("C11:value-objects:" + what, "after a caller's reads / in-place changes / writes of capacities objects the "
+                          "request does not name the %s every node stores" % k, c, expected=exp[k], observed=got[1][k])
+    if got[1]["cores"] != exp["cores"]:
+        res.violation("C11:value-objects:log:cores", "accounting core count differs from a tally of the stored sizes", c,
+                      expected=exp["cores"], observed=got[1]["cores"])
+    if got[1]["presented"] != exp["presented"]:
+        res.violation("C11:value-objects:presented", "get_sliver() of a node does not present the size the node stores", c,
+                      expected=exp["presented"], observed=got[1]["presented"])
 
 
 # --------------------------------------------------------------------------
@@ -1581,6 +1879,10 @@ def correspondence(ctx, res):
                 for u in out.get("unsupported", []):
                     res.count("members:handle-class-refused-by-dispatch:" + u)
                 res.count("entry:components", 1)
+    for c, got in vobj_cases(ctx):
+        shared_at[len(reqs)] = True
+        reqs.append(["vobj", c]); impl.append(got)
+        res.count("entry:value-objects")
     model = LeanDriver("C11").run([json.dumps(r) for r in reqs])
     for idx, (r, i, m) in enumerate(zip(reqs, impl, model)):
         res.evaluations += 1
@@ -1668,6 +1970,8 @@ def oracle(ctx, res, n=None, nt=None):
         if any(not s["ifs"] for s in ts["svcs"]):
             res.count("topology:service-without-interfaces")
         judge_tspec(ts, runs, res)
+    for c, got in vobj_cases(ctx, None if nt is None else max(60, nt * 20)):
+        eval_vobj(c, got, res)
     res.sample({"slice": cases[len(cases) // 2], "checked": "completeness, order independence over stored orders, PDP request "
                 "shape, accounting tallies; topology vs ASM on real topologies"})
 
@@ -1702,6 +2006,8 @@ def replay(ctx, payload):
         full_request(r)
     elif c.get("entry") == "shared-slivers":
         eval_shared(c["slice"], r)
+    elif c.get("entry") == "value-objects":
+        eval_vobj(c["vobj"], impl_vobj(c["vobj"]), r)
     elif c.get("kind") == "history":
         for ts, run in run_history(c["tspec"], c["edits"]):
             judge_tspec(ts, [run], r)
